@@ -81,7 +81,13 @@ type UFDecl struct {
 	Axioms  []Clause
 }
 
+type GlobalInv struct {
+	PkgPath string
+	Clause  Clause
+}
+
 type ContractDB struct {
+	GlobalInvs []GlobalInv
 	Funcs map[string]*FuncContract // key: pkgpath + " " + Key   (assumed: Key only, fully qualified)
 	Preds map[string]*Pred         // pkgpath + " " + name
 	UFs   map[string]*UFDecl
@@ -93,7 +99,7 @@ var clauseKeywords = map[string]bool{"func": true, "iface": true, "requires": tr
 	"nopanic": true, "inline": true, "pure": true, "panics": true, "loop": true, "prop": true, "pred": true,
 	"uf": true, "at": true, "assumed": true, "trusted": true, "expect": true, "math": true, "fresh": true,
 	"axiom": true, "ghost": true, "havoc": true, "alias": true, "end": true,
-	"ghostfield": true, "define": true, "view": true, "ghostscalar": true, "deterministic": true}
+	"ghostfield": true, "define": true, "view": true, "ghostscalar": true, "deterministic": true, "globalinv": true}
 
 var labelRe = regexp.MustCompile(`^(requires|ensures|invariant)\[([A-Za-z0-9_.:-]+)\]`)
 
@@ -205,6 +211,10 @@ func (db *ContractDB) parseContractFile(path, pkgPath string, prefix string, ass
 		case "ghostfield", "view", "ghostscalar":
 			cur = nil
 			curUF = nil
+		case "globalinv":
+			cur = nil
+			curUF = nil
+			db.GlobalInvs = append(db.GlobalInvs, GlobalInv{PkgPath: pkgPath, Clause: Clause{Text: rest, Src: src}})
 		case "define":
 		case "axiom":
 			if curUF == nil {
